@@ -8,6 +8,7 @@
 package sys
 
 import (
+	"bufio"
 	"fmt"
 	"io"
 	"log"
@@ -75,6 +76,7 @@ func startSTUN() (addr string, err error) {
 // relay forwarder: proxies connect here; everything is forwarded to the server under test
 
 type relayFwd struct {
+	target atomic.Value // string: where relay connections are forwarded to
 	ln    net.Listener
 	mu    sync.Mutex
 	conns map[net.Conn]net.Conn
@@ -87,13 +89,14 @@ func startRelay(target string) (*relayFwd, error) {
 		return nil, err
 	}
 	f := &relayFwd{ln: ln, conns: map[net.Conn]net.Conn{}}
+	f.target.Store(target)
 	go func() {
 		for {
 			c, err := ln.Accept()
 			if err != nil {
 				return
 			}
-			s, err := net.Dial("tcp", target)
+			s, err := net.Dial("tcp", f.target.Load().(string))
 			if err != nil {
 				c.Close()
 				continue
@@ -152,6 +155,11 @@ type env struct {
 	delayNext int64 // ms to delay the next client poll response
 	proxies   []*exec.Cmd
 	started   int64
+	// all-binaries mode
+	rigAddr    string
+	serverAddr string // WebSocket address of the server BINARY
+	server     *exec.Cmd
+	clientN    int64
 }
 
 func buildBinary(dir, name string) (string, error) {
@@ -195,7 +203,8 @@ func setup(r *rig.Rig) (*env, error) {
 		return nil, err
 	}
 	e := &env{dir: dir}
-	for _, b := range []string{"broker", "proxy"} {
+	e.rigAddr = r.Addr
+	for _, b := range []string{"broker", "proxy", "server", "client"} {
 		if _, err := buildBinary(dir, b); err != nil {
 			return nil, err
 		}
@@ -255,6 +264,143 @@ func setup(r *rig.Rig) (*env, error) {
 	go http.Serve(rl, rp)
 	e.brokerURL = "http://" + rl.Addr().String() + "/"
 	return e, nil
+}
+
+// startServerBinary starts the real server binary as a managed transport; its ORPort is a
+// listener of the harness whose connections are served by the rig's bridge side.
+func (e *env) startServerBinary(r *rig.Rig) error {
+	if e.server != nil {
+		return nil
+	}
+	orln, err := net.Listen("tcp", "127.0.0.1:0")
+	if err != nil {
+		return err
+	}
+	go func() {
+		for {
+			c, err := orln.Accept()
+			if err != nil {
+				return
+			}
+			go r.ServeConn(c)
+		}
+	}()
+	port := freePort()
+	st := filepath.Join(e.dir, "server-state")
+	os.MkdirAll(st, 0o755)
+	cmd := exec.Command(filepath.Join(e.bin, "server"), "-disable-tls", "-log", filepath.Join(e.dir, "server.log"))
+	cmd.Env = append(os.Environ(), "TOR_PT_MANAGED_TRANSPORT_VER=1", "TOR_PT_SERVER_TRANSPORTS=snowflake",
+		fmt.Sprintf("TOR_PT_SERVER_BINDADDR=snowflake-127.0.0.1:%d", port), "TOR_PT_ORPORT="+orln.Addr().String(), "TOR_PT_STATE_LOCATION="+st)
+	if os.Getenv("VERIF_SYS_RACE") == "1" {
+		cmd.Env = append(cmd.Env, "GORACE=halt_on_error=0 log_path="+filepath.Join(e.dir, "race-server"))
+	}
+	out, _ := cmd.StdoutPipe()
+	cmd.Stderr = io.Discard
+	if _, err := cmd.StdinPipe(); err != nil {
+		return err
+	}
+	if err := cmd.Start(); err != nil {
+		return err
+	}
+	e.server = cmd
+	sc := bufio.NewScanner(out)
+	ok := make(chan bool, 1)
+	go func() {
+		for sc.Scan() {
+			if sc.Text() == "SMETHODS DONE" {
+				ok <- true
+			}
+		}
+	}()
+	select {
+	case <-ok:
+	case <-time.After(15 * time.Second):
+		return fmt.Errorf("server binary did not finish its set-up")
+	}
+	e.serverAddr = fmt.Sprintf("127.0.0.1:%d", port)
+	for i := 0; i < 200; i++ {
+		c, err := net.DialTimeout("tcp", e.serverAddr, 100*time.Millisecond)
+		if err == nil {
+			c.Close()
+			return nil
+		}
+		time.Sleep(20 * time.Millisecond)
+	}
+	return fmt.Errorf("server binary does not listen on %s", e.serverAddr)
+}
+
+// dialClientBinary starts the real client binary as a managed transport and opens a SOCKS5
+// connection through it; closing the returned conn terminates the binary.
+func (e *env) dialClientBinary(max int) (net.Conn, error) {
+	n := atomic.AddInt64(&e.clientN, 1)
+	st := filepath.Join(e.dir, fmt.Sprintf("client-state-%d", n))
+	os.MkdirAll(st, 0o755)
+	cmd := exec.Command(filepath.Join(e.bin, "client"), "-url", e.brokerURL, "-ice", "stun:"+e.stun, "-max", fmt.Sprint(max),
+		"-keep-local-addresses", "-log", filepath.Join(e.dir, fmt.Sprintf("client%d.log", n)))
+	cmd.Env = append(os.Environ(), "TOR_PT_MANAGED_TRANSPORT_VER=1", "TOR_PT_CLIENT_TRANSPORTS=snowflake", "TOR_PT_STATE_LOCATION="+st)
+	if os.Getenv("VERIF_SYS_RACE") == "1" {
+		cmd.Env = append(cmd.Env, "GORACE=halt_on_error=0 log_path="+filepath.Join(e.dir, fmt.Sprintf("race-client%d", n)))
+	}
+	out, _ := cmd.StdoutPipe()
+	cmd.Stderr = io.Discard
+	if _, err := cmd.StdinPipe(); err != nil {
+		return nil, err
+	}
+	if err := cmd.Start(); err != nil {
+		return nil, err
+	}
+	go cmd.Wait()
+	socks := make(chan string, 1)
+	go func() {
+		sc := bufio.NewScanner(out)
+		for sc.Scan() {
+			if l := sc.Text(); strings.HasPrefix(l, "CMETHOD snowflake socks5 ") {
+				socks <- strings.TrimPrefix(l, "CMETHOD snowflake socks5 ")
+			}
+		}
+	}()
+	var addr string
+	select {
+	case addr = <-socks:
+	case <-time.After(15 * time.Second):
+		cmd.Process.Kill()
+		return nil, fmt.Errorf("client binary did not announce its SOCKS port")
+	}
+	c, err := net.DialTimeout("tcp", addr, 5*time.Second)
+	if err != nil {
+		cmd.Process.Kill()
+		return nil, err
+	}
+	c.SetDeadline(time.Now().Add(15 * time.Second))
+	c.Write([]byte{5, 1, 0})
+	var r2 [2]byte
+	if _, err := io.ReadFull(c, r2[:]); err != nil {
+		cmd.Process.Kill()
+		return nil, fmt.Errorf("socks: %v", err)
+	}
+	c.Write([]byte{5, 1, 0, 1, 192, 0, 2, 99, 0, 80})
+	var rep [10]byte
+	if _, err := io.ReadFull(c, rep[:]); err != nil || rep[1] != 0 {
+		cmd.Process.Kill()
+		return nil, fmt.Errorf("socks connect: %v %v", rep, err)
+	}
+	c.SetDeadline(time.Time{})
+	return &binConn{Conn: c, cmd: cmd}, nil
+}
+
+type binConn struct {
+	net.Conn
+	cmd  *exec.Cmd
+	once sync.Once
+}
+
+func (b *binConn) Close() error {
+	err := b.Conn.Close()
+	b.once.Do(func() {
+		b.cmd.Process.Signal(syscall.SIGTERM)
+		time.AfterFunc(5*time.Second, func() { b.cmd.Process.Kill() })
+	})
+	return err
 }
 
 func (e *env) startProxy() *exec.Cmd {
@@ -320,6 +466,7 @@ type sysCase struct {
 	Max      int         `json:"max"`
 	Faults   []fault     `json:"faults"`
 	PreFault string      `json:"prefault,omitempty"` // loseanswer | delayanswer | "" : applied to the very first rendezvous
+	AllBin   bool        `json:"allbin,omitempty"`   // the client and the server are the real BINARIES too (SOCKS port, ORPort)
 }
 
 var theEnv *env
@@ -375,15 +522,31 @@ func runSysOnce(_ *testing.T, c sysCase, stall time.Duration) error {
 	case "delayanswer":
 		atomic.StoreInt64(&e.delayNext, 3000)
 	}
-	tr, err := sf.NewSnowflakeClient(sf.ClientConfig{BrokerURL: e.brokerURL, ICEAddresses: []string{"stun:" + e.stun}, Max: c.Max, KeepLocalAddresses: true})
-	if err != nil {
-		return fmt.Errorf("harness: NewSnowflakeClient: %v", err)
-	}
-	// let the client learn its NAT type from the fake STUN before the first poll
-	time.Sleep(300 * time.Millisecond)
-	conn, err := tr.Dial()
-	if err != nil {
-		return fmt.Errorf("harness: Dial: %v", err)
+	var conn io.ReadWriteCloser
+	if c.AllBin {
+		if err := e.startServerBinary(r); err != nil {
+			return fmt.Errorf("harness: server binary: %v", err)
+		}
+		e.relay.target.Store(e.serverAddr)
+		e.relay.cutAll(false)
+		bc, err := e.dialClientBinary(c.Max)
+		if err != nil {
+			return fmt.Errorf("harness: client binary: %v", err)
+		}
+		conn = bc
+	} else {
+		e.relay.target.Store(e.rigAddr)
+		tr, err := sf.NewSnowflakeClient(sf.ClientConfig{BrokerURL: e.brokerURL, ICEAddresses: []string{"stun:" + e.stun}, Max: c.Max, KeepLocalAddresses: true})
+		if err != nil {
+			return fmt.Errorf("harness: NewSnowflakeClient: %v", err)
+		}
+		// let the client learn its NAT type from the fake STUN before the first poll
+		time.Sleep(300 * time.Millisecond)
+		lc, err := tr.Dial()
+		if err != nil {
+			return fmt.Errorf("harness: Dial: %v", err)
+		}
+		conn = lc
 	}
 	stop := make(chan struct{})
 	var faultsDone int64
@@ -464,6 +627,10 @@ func TestVerifC01System(t *testing.T) {
 	defer func() {
 		if theEnv != nil {
 			theEnv.killAllProxies()
+			if theEnv.server != nil && theEnv.server.Process != nil {
+				theEnv.server.Process.Signal(syscall.SIGTERM)
+				defer theEnv.server.Process.Kill()
+			}
 			if theEnv.broker != nil && theEnv.broker.Process != nil {
 				theEnv.broker.Process.Signal(syscall.SIGTERM)
 				time.Sleep(200 * time.Millisecond)
@@ -497,6 +664,7 @@ func TestVerifC01System(t *testing.T) {
 			c.S.DownChunk = []int{rapid.IntRange(100, 70000).Draw(rt, "downchunk")}
 		}
 		c.PreFault = rapid.SampledFrom([]string{"", "", "loseanswer", "delayanswer"}).Draw(rt, "prefault")
+		c.AllBin = rapid.Bool().Draw(rt, "allbin")
 		nf := rapid.IntRange(0, 3).Draw(rt, "nfaults")
 		at := 0
 		for i := 0; i < nf; i++ {
@@ -516,6 +684,11 @@ func TestVerifC01System(t *testing.T) {
 		}
 		if c.PreFault != "" {
 			labels = append(labels, "first rendezvous: "+c.PreFault)
+		}
+		if c.AllBin {
+			labels = append(labels, "all four binaries (SOCKS port to ORPort)")
+		} else {
+			labels = append(labels, "client and server libraries in the harness process")
 		}
 		nt := len(c.Faults) > 0 && c.S.UpSize+c.S.DownSize >= 300000
 		uSys.Journal(c)
